@@ -7,6 +7,50 @@ HERE = os.path.dirname(os.path.dirname(os.path.abspath(__file__)))
 
 # id -> (category, technique, text, note, design_ref)
 CHECKS = {
+    "C01": (
+        "exploration",
+        "bounded exhaustive enumeration of (adapter type, adapter, configuration, read) on the real match_to, judged by a naive C reference aligner",
+        "All 11 adapter types (8 + the three ';anywhere' variants) x all canonical adapters over ACGT up to length 4 (thorough 5) x every "
+        "error-rate profile x minimum overlaps x indels on/off x ALL reads over ACGT up to length 7 (8); wildcard family over ACNR x "
+        "ACGNa with the four -N/--match-read-wildcards settings; realistic-band family (6 adapters of 12-21 nt + one 70 nt against every "
+        "read within 1-2 edits of every prefix/suffix). Every reported match is checked against the statement by an unbanded reference DP: "
+        "interval bounds, placement predicate of the type, minimum overlap, errors == true edit/Hamming distance, errors <= rate x non-N "
+        "aligned bases. About 6e8 match_to calls in the quick tier, exhaustive within the scope.",
+        "Trusted: the C reference (120 lines, cross-checked against a Python twin every run), letter symmetry of ACGT (validated on "
+        "non-canonical adapters), the error-rate profile argument of DESIGN 2.1.",
+        "DESIGN.md section 3, C01",
+    ),
+    "C02": (
+        "exploration",
+        "bounded exhaustive enumeration of (adapter type, adapter, configuration, read); completeness oracle = brute-force set of all admissible occurrences",
+        "Same families as C01 with the k-mer prefilter replaced by the always-true finder. For every (configuration, read) the C "
+        "reference enumerates all admissible occurrences (one full DP per admissible start) and the check demands: a match whenever an "
+        "error-free admissible occurrence exists; a match whenever any admissible occurrence exists (indels off, or types that cannot skip "
+        "the adapter start); regular 3' cut at or before the leftmost exact full copy, regular 5' at or before its end, rightmost at or "
+        "after the end of the rightmost copy; exact anchored occurrence removed exactly.",
+        "Trusted: as C01. The with-indels clause is restricted to the adapter types named in the statement.",
+        "DESIGN.md section 3, C02",
+    ),
+    "C07": (
+        "exploration",
+        "bounded exhaustive differential enumeration: match_to with the real k-mer finder vs. with the always-true finder",
+        "Same families as C01 restricted to configurations that build a real KmerFinder (incl. anchored/non-internal with indels, anywhere "
+        "adapters on reads shorter than the adapter, a 70-nt adapter for the multi-word path); the reported tuple must be identical with "
+        "and without the prefilter for every read. Non-vacuity: the number of reads for which the prefilter answered 'absent' is reported.",
+        "Trusted: letter symmetry of ACGT (validated), error-rate profiles. Memory-safety of the finder is outside this technique.",
+        "DESIGN.md section 3, C07",
+    ),
+    "C14": (
+        "exploration",
+        "bounded exhaustive enumeration of sequences / quality strings against declarative definitions",
+        "poly-A/poly-T: all sequences over {A,C,T} up to length 11 (13) and over {A,a,N,G,T} up to 7 (8), plus all placements of <= 3 other "
+        "bases in tails of length 3..26 (the 20 % boundary); --trim-n: all over {A,C,N} up to 9; N count: all over {A,N,n} x 9 cut-offs "
+        "(counts and fractions at the boundary); expected errors: all strings over 6 characters up to length 7 + every valid phred value "
+        "for both bases + invalid characters; each at the function, the modifier/predicate and the cli.main seam incl. the poly-A figures "
+        "of the JSON report.",
+        "Trusted: dnaio record slicing; float tolerance 1e-12 relative for summation order.",
+        "DESIGN.md section 3, C14",
+    ),
     "C13": (
         "exploration",
         "bounded exhaustive enumeration of inputs (small-scope) on the real code against a declarative reference",
